@@ -390,6 +390,19 @@ where
     | [] => [n]
     | y :: ys => if eqv prev y then go y (n + 1) ys else n :: go y 1 ys
 
+/-- LIMIT over grouped rows (D85 fix: it used to be ignored there), on the tie runs of the sorted rows: the runs that are
+    shown, the last one kept whole, and how many rows of that last run are shown (0 = all of it).  Which rows of a run
+    that straddles the cut are shown depends on the hash order of the groups, which the model does not know. -/
+def cutRuns : Nat → List Nat → List Nat × Nat
+  | _, [] => ([], 0)
+  | lim, r :: rs =>
+    if lim < r then ([r], lim)
+    else if lim == r then ([r], 0)
+    else let (k, c) := cutRuns (lim - r) rs; (r :: k, c)
+
+/-- number of rows a grouped query prints -/
+def groupedShown (lim n : Nat) : Nat := if lim == 0 then n else min lim n
+
 /-- everything after the roots have been searched: buffered rows, aggregates, footer -/
 def finish (p : Plan) (st : ResSt) : Except Abort (Str × Bool × List Nat) :=
   let fmt := p.q.format
@@ -407,8 +420,10 @@ def finish (p : Plan) (st : ResSt) : Except Abort (Str × Bool × List Nat) :=
           else stableSort (fun a b => groupedCmp idxs p.q.orderingAsc a b != .gt) rows
         let ties := if p.q.ordering.isEmpty then [rows.length]
                     else tieRuns (fun a b => groupedCmp idxs p.q.orderingAsc a b == .eq) rows
+        let (ties, cut) := if p.q.limit == 0 then (ties, 0) else cutRuns p.q.limit ties
+        let rows := rows.take ties.sum
         let body := (rows.zipIdx.map fun (r, i) => (if i > 0 then fmtSeparator fmt else []) ++ fmtRow fmt r).flatten
-        .ok (st.out ++ body ++ fmtFooter fmt, st.inexact || inex, ties)
+        .ok (st.out ++ body ++ fmtFooter fmt, st.inexact || inex, if cut == 0 then ties else ties ++ [0, cut])
     else
       match liftE (fun _ => st.out) (evalColumns (p.cx st.raw) none [] p.q.fields) with
       | .error a => .error a
